@@ -97,7 +97,9 @@ EvTick ==
 EvRead ==
   /\ Is("read")
   /\ LET ids == IdsOf(E.res) IN
-     /\ Judge(ReadVerdict(g, E.ctx, E.last, E.lim, E.res) \cup HttpOk(E.status, TRUE, 200))
+     /\ LET v == ReadVerdict(g, E.ctx, E.last, E.lim, E.res) IN
+        \* a wrong result of a read with a limit is also a matter of C11 ("exactly the first n matching frames")
+        Judge((IF E.lim # NOLIM /\ v \cap {"C01", "C08"} # {} THEN v \cup {"C11"} ELSE v) \cup HttpOk(E.status, TRUE, 200))
      /\ met' = met \cup MetBy(g, E.ctx, E.last, E.lim, ids)
      /\ g' = [g EXCEPT !.gone = @ \cup Skipped(g, E.ctx, E.last, E.lim, ids)]
   /\ UNCHANGED <<b, owed, lost, imported, src, known>>
